@@ -99,7 +99,7 @@ class SCase:
         self.wbs = int(f[3]); self.max = None if f[4] == 'inf' else int(f[4])
         self.mms = None if f[5] == 'none' else int(f[5])
         self.mfs = None if f[6] == 'none' else int(f[6])
-        self.au = f[7] == '1'; self.rbs = int(f[8]); self.seed = int(f[9])
+        self.au = f[7] == '1'; self.rbs = int(f[8].replace('@sc', '')); self.seed = int(f[9])
         self.pre = unhx(f[10])
         self.ops = [] if f[11] in ('-', '') else f[11].split(',')
         self.rds = [] if f[12] in ('-', '') else f[12].split(',')
